@@ -96,8 +96,8 @@ def new_message(ex, uid, internal_date, flags, recent, content, expunged, email_
     """model of Message.__init__/BaseMessage.__init__: a fresh object whose attributes are the constructor arguments
     (permanent_flags = frozenset(flags)).  That the attributes are the arguments is proved on the two real constructors
     (`base_message_init`, `message_init` below); that a constructor call yields an object distinct from every existing one
-    is Python's semantics (ASSUMED: freshness of constructed objects), as is that the one-line property getters
-    uid/recent/permanent_flags/expunged return the fields of the same name."""
+    is Python's semantics (ASSUMED: freshness of constructed objects); the property getters recent / permanent_flags /
+    flags_key are proved to return the fields of the same name (GETTER_CONTRACTS), uid / expunged are plain attributes."""
     a = alloc(ex)
     m = Msg.fresh('newmsg')
     ex.assume(~a.has(m))
@@ -273,4 +273,20 @@ message_init = Contract(
     ensures=_CTOR_POST + [('keeps_recent_and_content', lambda s: (s.self._recent == s.recent) & (s.self._content == s.content))],
     calls={'super().__init__': _super_init}, modifies=['self'], raises_only=(), returns=NoneS(),
     note='justifies the model new_message(): \\Recent of a new dict message is exactly the `recent` argument')
-CTOR_CONTRACTS = [base_message_init, message_init]
+
+
+# the one-line property getters the heap model reads as attributes of the same name (find_function takes the first
+# definition of the name, which is the @property getter; the setters are not addressed here)
+def _getter(relfile, qual, rec, field, sort):
+    return Contract('C17', relfile, qual, params=dict(self=rec),
+                    ensures=[('returns_the_field_and_changes_nothing', lambda s: s.result == getattr(s.self, field))],
+                    modifies=[], raises_only=(), returns=sort,
+                    note=f'justifies reading msg.{qual.split(".")[-1]} as the field {field} in the message model')
+
+
+GETTER_CONTRACTS = [
+    _getter(F, 'Message.recent', DictMsgRec, '_recent', BOOL),
+    _getter(MF, 'BaseMessage.permanent_flags', BaseMsgRec, '_permanent_flags', SetS(Flag)),
+    _getter(MF, 'BaseMessage.flags_key', BaseMsgRec, '_flags_key', _FKey),
+]
+CTOR_CONTRACTS = [base_message_init, message_init] + GETTER_CONTRACTS
